@@ -33,7 +33,7 @@ def main():
             if ap.returncode != 0:
                 print(d.name, "PATCH DOES NOT APPLY")
                 continue
-            tests = sh(f"cd {WT} && /venv/bin/python -m pytest -q -p no:cacheprovider --timeout=900 2>&1 | tail -1", timeout=900)
+            tests = sh(f"cd {WT} && {env} /venv/bin/python -m pytest -q -p no:cacheprovider --timeout=900 2>&1 | tail -1", timeout=900)
             mut = sh(f"cd {d} && {env} timeout 600 /venv/bin/python demo.py", timeout=700)
             sh(f"git -C {WT} checkout -- . && git -C {WT} clean -fdq")
             ok = base.returncode == 0 and mut.returncode != 0 and "78 passed" in tests.stdout
